@@ -12,6 +12,9 @@ CLAIMED = {
  "C04": dict(level="exploration", technique="bounded-exhaustive differential execution (optimize off vs on) of enumerated programs with host-effect log",
    text="Every enumerated program with host effects, explicit failures and discarded bindings up to size 5 (quick) / 6 (thorough), the full product of 16 dead/live positions x 14 effectful or failing expressions (direct, through record fields, closures, partial applications, an imported module) and ordered pairs of them, and the C01 feature products are each compiled twice by the real pipeline and compared on value, failure and the sequence of host-function calls.",
    note="Differential on gluon itself; the only tolerated difference is computed exactly from the reference semantics (first j failing unused built-in arithmetic operations skipped).", ref="4.4"),
+ "C08": dict(level="exploration", technique="bounded-exhaustive enumeration of operator chains against a brute-force grouping reference and of ASTs x concrete styles round-tripped through the real parser",
+   text="(1) ALL operator chains with up to 6 operands (7 thorough) over declared operators covering every precedence relation and associativity incl. equal precedence with opposite associativity, and the built-in operators: gluon's tree after reparse_infix must equal the unique tree consistent with all adjacent-operator constraints, conflicts must be reported (also observed end-to-end by evaluating tree-building operators). (2) All harness ASTs up to size 5 (6) plus a nesting family and a literal family, printed in 10 (16) concrete styles (explicit in, layout with indent 1/2/4, redundant parentheses at every position, comments/blank lines in every gap) parse back to the same tree; spans are in-bounds, nested, ordered, and re-parsing src[span] yields the subtree.",
+   note="Only layouts documented in the book or used by std are printed; undocumented layouts are never demanded.", ref="4.8"),
  "C09": dict(level="exploration", technique="bounded-exhaustive enumeration of token/character strings, single-edit mutants of a corpus and nesting ramps, run through the real front end in watchdogged worker processes",
    text="All token sequences up to length 4 (5 thorough) over three 16-token alphabets in three indentation patterns, all character strings up to length 3 (4) over 28 lexically interesting characters, every first-order mutant (delete / duplicate / swap token, truncate at every token and inside multi-byte characters, re-indent a line) of the .glu corpus of /repo and of generated programs, and nesting ramps to depth 256 are pushed through typecheck_str (lex, layout, parse, macro expansion, rename, typecheck) in child processes with a CPU-time watchdog; no panic, abort, stack overflow or hang; every error span inside its file on char boundaries; emit_string() renders.",
    note="Exhaustive over short strings and single edits only; arbitrary 4 KiB text is not enumerable and not claimed. Corpus mutants go through the pipeline function typecheck_str delegates to (cross-checked through typecheck_str for findings).", ref="4.9"),
